@@ -133,6 +133,7 @@ func (e *Enc) instr(fr *Frame, b *ssa.BasicBlock, ins ssa.Instruction, guard T, 
 		switch x.Op {
 		case token.MUL: // load
 			e.nilCheck(fr, a, guard, x.Pos())
+			e.interiorGuard(a, x.X.Type())
 			e.setVal(fr, x, e.loadAt(st, a, x.Type()))
 		case token.NOT:
 			e.setVal(fr, x, Val{L: []T{Not(a.L[0])}})
@@ -153,7 +154,8 @@ func (e *Enc) instr(fr *Frame, b *ssa.BasicBlock, ins ssa.Instruction, guard T, 
 		p, v := e.get(fr, x.Addr), e.get(fr, x.Val)
 		v.Typ = x.Addr.Type().Underlying().(*types.Pointer).Elem()
 		e.nilCheck(fr, p, guard, x.Pos())
-		e.checkStorable(v)
+		e.interiorGuard(p, x.Addr.Type())
+		v = e.checkStorable(v, st)
 		e.storeAt(st, p, v)
 	case *ssa.FieldAddr:
 		p := e.get(fr, x.X)
@@ -309,9 +311,50 @@ func (e *Enc) setVal2(fr *Frame, ins ssa.Value, v Val) { fr.vals[ins] = v }
 
 func (e *Enc) zeroValFor(t types.Type) Val { return e.zeroVal(t) }
 
-func (e *Enc) checkStorable(v Val) {
+// checkStorable: pointers stored into the heap must point at whole objects. With
+// `opt interior=opaque` a pointer into an object (&c.b) is stored as a pointer to a fresh
+// object instead; from then on every access through a pointer that could be that one (same
+// pointee type, not derived from the enclosing object) and every call that may have effects
+// leaves the supported subset (interiorGuard / interiorCallGuard), so nothing is ever read or
+// written through the stand-in.
+func (e *Enc) checkStorable(v Val, st *State) Val {
 	if v.P != nil && (v.P.Space != "H" || v.P.Prefix != "") {
+		if e.contract != nil && e.contract.Opts["interior"] == "opaque" && v.Typ != nil {
+			if pt, ok := v.Typ.Underlying().(*types.Pointer); ok {
+				if e.interiorStored == nil {
+					e.interiorStored = map[string]bool{}
+				}
+				e.interiorStored[typeKey(pt.Elem())] = true
+				e.noteAssumed(e.fnName + ": a pointer into an object (" + pt.String() + ") is stored as an opaque stand-in; nothing is accessed through it afterwards (checked: such accesses and effectful calls are rejected as unsupported) (opt interior=opaque)")
+				return Val{Typ: v.Typ, L: []T{e.alloc(st)}}
+			}
+		}
 		panic(unsupported("storing an interior pointer"))
+	}
+	return v
+}
+
+// interiorGuard rejects an access through a pointer whose target type is one for which an
+// interior pointer has been stored as an opaque stand-in (see checkStorable), unless the
+// pointer is derived from an enclosing object of another type.
+func (e *Enc) interiorGuard(p Val, ptrType types.Type) {
+	if len(e.interiorStored) == 0 {
+		return
+	}
+	var root types.Type
+	if p.P != nil {
+		root = p.P.Root
+	} else if pt, ok := ptrType.Underlying().(*types.Pointer); ok {
+		root = pt.Elem()
+	}
+	if root != nil && e.interiorStored[typeKey(root)] {
+		panic(unsupported("access through a pointer that may be an interior pointer stored as opaque"))
+	}
+}
+
+func (e *Enc) interiorCallGuard(what string) {
+	if len(e.interiorStored) != 0 {
+		panic(unsupported("call with possible effects after an interior pointer was stored as opaque: " + what))
 	}
 }
 
